@@ -26,7 +26,8 @@ def run_impl(line):
     def go():
         if op in ('des.enc', 'des.dec'):
             d = D.DES(unhx(a[0]))
-            return hx(d.enc(unhx(a[1])) if op == 'des.enc' else d.dec(unhx(a[1])))
+            from props.parts import one_object as OO   # the object has already been used for the opposite operation
+            return hx(OO.used(d, lambda: unhx(a[1]), op[4:]))
         if op in ('des.len.enc', 'des.len.dec'):
             d = D.DES(unhx(a[0]))
             return str(len(d.enc(unhx(a[1])) if op == 'des.len.enc' else d.dec(unhx(a[1]))))
@@ -40,8 +41,9 @@ def run_impl(line):
             if k2 is None and k3 is None: o = D.TDEA(k1)
             elif k3 is None: o = D.TDEA(k1, k2)
             else: o = D.TDEA(k1, k2, k3)
-            if op == 'tdea.enc': return hx(o.enc(m))
-            if op == 'tdea.dec': return hx(o.dec(m))
+            if op in ('tdea.enc', 'tdea.dec'):
+                from props.parts import one_object as OO
+                return hx(OO.used(o, lambda: m, op[5:]))
             if op == 'tdea.len.enc': return str(len(o.enc(m)))
             if op == 'tdea.len.dec': return str(len(o.dec(m)))
             if op == 'tdea.rt.de': return hx(o.dec(o.enc(m)))
